@@ -448,7 +448,7 @@ theorem factorisation_shape (g : MG Name) (q : Event) (e : Expr) (ev : Event)
 -- This is FALSE for the model (hence for the code): the returned expression identifies counterfactual variables by
 -- their graph vertex and has only two value symbols per vertex, so it cannot express
 --   * a query that needs one vertex in two worlds  (P(Y = y, Y_x = y') -> both ancestors become `Y @ -X`)   `multiWorld`,
---   * a literal subscript `x` when X is also summed out (captured by the summation index)                  `literalBound`,
+--   * an unstarred literal subscript `x` when X is also summed out (captured by the summation index)       `literalBound`,
 --   * an ADDED parent subscript `-P` when P is an outcome with value `+P` or `None`                  `outcomeParentValue`.
 -- These are the open findings `factorisation-value:{multi-world, literal-bound, outcome-parent-value}`.
 -- What is proved (`factorisation_den_partial`): the statement for EVERY query outside these three decidable classes
@@ -476,13 +476,13 @@ theorem factorisation_den_partial (g : MG Name) (hg : g.WF) (q : Event) (e : Exp
 
 /-- what the three class flags say, relationally (`D` is the accumulated `An(Y_*)`):
  * not multi-world: the members of `D` are determined by their vertex;
- * not literal-bound: a subscript of the query that names a vertex of `D` names an outcome;
+ * not literal-bound: an unstarred subscript of the query that names a vertex of `D` names an outcome;
  * not outcome-parent-value: a parent `P` of a member that the member does not intervene on, if it is an outcome,
    has the value `-P` in every item of the query. -/
 theorem factorizeClasses_false (g : MG Name) (q : Event) (h : factorizeClasses g q = .ok (false, false, false)) :
     ∃ D, ancestralSet g q = .ok D ∧
       (∀ a ∈ D, ∀ b ∈ D, a.name = b.name → a = b) ∧
-      (∀ p ∈ q, ∀ i ∈ p.1.ivs, i.name ∈ D.map (·.name) → i.name ∈ q.map (·.1.name)) ∧
+      (∀ p ∈ q, ∀ i ∈ p.1.ivs, i.star = false → i.name ∈ D.map (·.name) → i.name ∈ q.map (·.1.name)) ∧
       (∀ w ∈ D, ∀ p, g.DiEdge p w.name → p ∉ subNames w → p ∈ D.map (·.name) →
         ∀ it ∈ q, it.1.name = p → it.2 = some ⟨p, false⟩) := by
   unfold factorizeClasses at h
